@@ -657,14 +657,59 @@ theorem loop_mem (principal tdFrom : Str) (parts tds acc : List Str) (x : Str) :
         · exact Or.inl (Or.inr h)
         · exact Or.inr h
 
+theorem tdSuffixMatch_covers (t td : Str) : tdSuffixMatch t td = coversTD td t := by
+  unfold tdSuffixMatch coversTD
+  by_cases h : hasPrefix star td = true
+  · obtain ⟨r, rfl⟩ := (hasPrefix_star_iff td).1 h
+    rw [trimPrefix_star_cons]; rfl
+  · have : hasPrefix star td = false := Bool.eq_false_iff.2 h
+    rw [this]; rfl
+
+theorem tdMatch_starfree (a s : Str) (hs : '*' ∉ s) :
+    (a == s || s == star || tdPrefixMatch a s || tdPrefixMatch s a || tdSuffixMatch a s || tdSuffixMatch s a) =
+      (a == s || tdPrefixMatch s a || tdSuffixMatch s a) := by
+  have hne : (s == star) = false := by
+    rw [Bool.eq_false_iff]; intro h; rw [beq_iff_eq] at h; subst h; exact hs (by simp [star])
+  have h1 : tdPrefixMatch a s = false := by simp [tdPrefixMatch, hasSuffix_star_false s hs]
+  have h2 : tdSuffixMatch a s = false := by simp [tdSuffixMatch, hasPrefix_star_false s hs]
+  rw [hne, h1, h2]; simp
+
+theorem tdStringMatch_starfree (a : Str) (l : List Str) (hl : ∀ t ∈ l, '*' ∉ t) :
+    tdStringMatch a l = (l.contains a || l.any (tdPrefixMatch · a) || l.any (tdSuffixMatch · a)) := by
+  unfold tdStringMatch
+  induction l with
+  | nil => rfl
+  | cons s t ih =>
+    rw [List.any_cons, tdMatch_starfree a s (hl s (by simp)), ih (fun x hx => hl x (List.mem_cons_of_mem _ hx))]
+    simp only [List.contains_cons, List.any_cons]
+    cases (a == s) <;> cases tdPrefixMatch s a <;> cases tdSuffixMatch s a <;> cases t.contains a <;>
+      cases t.any (tdPrefixMatch · a) <;> cases t.any (tdSuffixMatch · a) <;> rfl
+
+theorem plainTD_tdPartOK (b : List Str) (v : Str) (h : plainTD v = true) : tdPartOK b v = true := by
+  unfold plainTD at h
+  unfold tdPartOK
+  split
+  · rename_i td _ _ _ _ heq
+    rw [heq] at h
+    simp only [Bool.or_eq_true, beq_iff_eq, Bool.not_eq_true', List.contains_eq_mem,
+      decide_eq_false_iff_not] at h
+    rcases h with h | h
+    · simp [h]
+    · have : ∀ t, tdPrefixMatch t td = false := by
+        intro t; simp [tdPrefixMatch, hasSuffix_star_false td h]
+      simp [this]
+  · rfl
+
 /-- **`trustdomain_alias_correct`, one value.** `Bundle.ReplaceTrustDomainAliases` produces exactly
     the values the statement's reading of aliases gives: a principal `<td>/ns/..` whose trust
-    domain is in the bundle (or is `cluster.local`) is named in every trust domain of the bundle,
-    anything else stays as it is. -/
+    domain is in the bundle (or is `cluster.local`) is named in every trust domain of the bundle; one
+    whose trust-domain part is a `*suffix` pattern covering some of the bundle stays as written and is
+    named in the trust domains it does not cover; anything else stays as it is.  The one excluded
+    shape (`tdPartOK`): a `prefix*` trust-domain part over a bundle member, `alias_prefix_td_witness`. -/
 theorem trustdomain_alias_value (bundle : List Str) (v : Str) (hb : ∀ t ∈ bundle, '*' ∉ t)
-    (hv : plainTD v = true) (x : Str) :
+    (hv : tdPartOK bundle v = true) (x : Str) :
     x ∈ replaceTrustDomainAliases bundle [v] ↔ x ∈ aliasValues bundle v := by
-  unfold replaceTrustDomainAliases aliasValues plainTD at *
+  unfold replaceTrustDomainAliases aliasValues tdPartOK at *
   simp only [List.flatMap_cons, List.flatMap_nil, List.append_nil]
   generalize hparts : splitOn '/' v = parts at *
   match parts, hv with
@@ -680,30 +725,60 @@ theorem trustdomain_alias_value (bundle : List Str) (v : Str) (hb : ∀ t ∈ bu
     by_cases hstar : td = star
     · subst hstar; simp
     · have hne : (some td == some star) = false := by simpa using hstar
-      have hne2 : (td != star) = true := by simpa using hstar
-      have htd : '*' ∉ td := by
-        simp only [Bool.or_eq_true, beq_iff_eq, Bool.not_eq_true', List.contains_eq_mem,
-          decide_eq_false_iff_not] at hv
-        rcases hv with hv | hv
-        · exact absurd hv hstar
-        · exact hv
-      simp only [hne, Bool.false_eq_true, if_false, hne2, Bool.true_and,
-        tdStringMatch_plain td bundle htd hb]
+      have hne2 : (td == star) = false := by simpa using hstar
+      have hpre : bundle.any (tdPrefixMatch · td) = false := by
+        simpa [hne2] using hv
+      simp only [hne, Bool.false_eq_true, if_false, hne2,
+        tdStringMatch_starfree td bundle hb, hpre, Bool.or_false]
+      have hcov : ∀ t, tdSuffixMatch t td = coversTD td t := fun t => tdSuffixMatch_covers t td
+      have hany : bundle.any (tdSuffixMatch · td) = bundle.any (coversTD td) := by
+        congr 1; funext t; exact hcov t
+      rw [hany]
       by_cases hc : (bundle.contains td || td == clusterLocal) = true
-      · simp only [hc, if_true, loop_mem, List.not_mem_nil, false_or, List.mem_map]
-        have : ∀ t, tdSuffixMatch t td = false := by
-          intro t; simp [tdSuffixMatch, hasPrefix_star_false td htd]
-        simp only [this, Bool.false_eq_true, if_false]
+      · -- the trust domain is wildcard-free: no bundle member is covered
+        have htd : '*' ∉ td := by
+          simp only [Bool.or_eq_true, List.contains_eq_mem, decide_eq_true_eq, beq_iff_eq] at hc
+          rcases hc with hc | hc
+          · exact hb td hc
+          · subst hc; decide
+        have hnc : ∀ t, coversTD td t = false := by
+          intro t; simp [coversTD, hasPrefix_star_false td htd]
+        have hcond : (bundle.contains td || bundle.any (coversTD td) || td == clusterLocal) = true := by
+          simp only [Bool.or_eq_true] at hc ⊢
+          rcases hc with hc | hc
+          · exact Or.inl (Or.inl hc)
+          · exact Or.inr hc
+        simp only [hcond, hc, if_true, loop_mem, List.not_mem_nil, false_or, List.mem_map, hcov, hnc,
+          Bool.false_eq_true, if_false]
         constructor
         · rintro ⟨t, ht, rfl⟩
           exact ⟨t, ht, by simp [replaceTD, join]⟩
         · rintro ⟨t, ht, rfl⟩
           exact ⟨t, ht, by simp [replaceTD, join]⟩
-      · simp only [hc, Bool.false_eq_true, if_false]
+      · have hc' : (bundle.contains td || td == clusterLocal) = false := by simpa using hc
+        have hc1 : bundle.contains td = false := by
+          cases h : bundle.contains td
+          · rfl
+          · rw [h] at hc'; simp at hc'
+        have hc2 : (td == clusterLocal) = false := by
+          cases h : (td == clusterLocal)
+          · rfl
+          · rw [h, Bool.or_true] at hc'; cases hc'
+        simp only [hc', Bool.false_eq_true, if_false, hc1, hc2, Bool.false_or, Bool.or_false]
+        by_cases hs : bundle.any (coversTD td) = true
+        · simp only [hs, if_true, loop_mem, List.not_mem_nil, false_or, List.mem_map, hcov]
+          constructor
+          · rintro ⟨t, ht, rfl⟩
+            refine ⟨t, ht, ?_⟩
+            split <;> simp [replaceTD, join]
+          · rintro ⟨t, ht, rfl⟩
+            refine ⟨t, ht, ?_⟩
+            split <;> simp [replaceTD, join]
+        · simp only [hs, Bool.false_eq_true, if_false]
 
 /-- ... and for a whole value list (`principals`, `notPrincipals`, `source.principal`). -/
 theorem trustdomain_alias_correct (bundle : List Str) (vs : List Str) (hb : ∀ t ∈ bundle, '*' ∉ t)
-    (hv : ∀ v ∈ vs, plainTD v = true) (x : Str) :
+    (hv : ∀ v ∈ vs, tdPartOK bundle v = true) (x : Str) :
     x ∈ replaceTrustDomainAliases bundle vs ↔ x ∈ vs.flatMap (aliasValues bundle) := by
   induction vs with
   | nil => simp [replaceTrustDomainAliases]
@@ -762,7 +837,7 @@ theorem any_congr_set {l1 l2 : List Str} (h : ∀ x, x ∈ l1 ↔ x ∈ l2) (f :
 /-- Consequence for matching: with aliases, a peer matches the migrated `principals` values iff it
     matches the policy's values read in any aliased form. -/
 theorem trustdomain_alias_matches (bundle vs : List Str) (hb : ∀ t ∈ bundle, '*' ∉ t)
-    (hv : ∀ v ∈ vs, plainTD v = true) (req : Request) :
+    (hv : ∀ v ∈ vs, tdPartOK bundle v = true) (req : Request) :
     (replaceTrustDomainAliases bundle vs).any (specAtom .srcPrincipal attrSrcPrincipal · req) =
       (vs.flatMap (aliasValues bundle)).any (specAtom .srcPrincipal attrSrcPrincipal · req) :=
   any_congr_set (trustdomain_alias_correct bundle vs hb hv) _
@@ -810,6 +885,20 @@ theorem fieldSem_equiv (req : Request) {x y : MRule} (h : x.equiv y) : fieldSem 
 def mrulePlain (mr : MRule) : Bool :=
   if mr.key = attrSrcPrincipal then (mr.values ++ mr.notValues).all plainTD else true
 
+/-- Every `principals`-style value of the rule is inside the alias reading proved for ONE application
+    of `MigrateTrustDomain` (`tdPartOK`). -/
+def mruleAlias (b : List Str) (mr : MRule) : Bool :=
+  if mr.key = attrSrcPrincipal then (mr.values ++ mr.notValues).all (tdPartOK b) else true
+
+theorem mrulePlain_alias (b : List Str) (mr : MRule) (h : mrulePlain mr = true) : mruleAlias b mr = true := by
+  unfold mrulePlain at h
+  unfold mruleAlias
+  split
+  · rename_i hk
+    simp only [hk, if_true, List.all_eq_true] at h ⊢
+    exact fun v hv => plainTD_tdPartOK b v (h v hv)
+  · rfl
+
 theorem bundleOK_star (b : List Str) (h : bundleOK b = true) : ∀ t ∈ b, '*' ∉ t := by
   intro t ht
   simp only [bundleOK, Bool.and_eq_true, List.all_eq_true, Bool.not_eq_true', List.contains_eq_mem,
@@ -827,13 +916,13 @@ theorem expandTD_nil (b : List Str) : expandTrustDomainAliases b [] = [] := rfl
 
 theorem principal_ne_td : attrSrcPrincipal ≠ attrSrcTrustDomain := by decide
 
-/-- One application of `MigrateTrustDomain` to a plain rule = the alias reading (as value sets). -/
-theorem migrateRule_equiv (b : List Str) (mr : MRule) (hb : bundleOK b = true) (hp : mrulePlain mr = true) :
+/-- One application of `MigrateTrustDomain` to a rule = the alias reading (as value sets). -/
+theorem migrateRule_equiv (b : List Str) (mr : MRule) (hb : bundleOK b = true) (hp : mruleAlias b mr = true) :
     (migrateRule b mr).equiv (expandMRule b mr) := by
   unfold migrateRule expandMRule
   by_cases h1 : mr.key = attrSrcPrincipal
   · simp only [h1, if_true]
-    unfold mrulePlain at hp
+    unfold mruleAlias at hp
     simp only [h1, if_true, List.all_eq_true] at hp
     refine ⟨rfl, rfl, ?_, ?_⟩
     · intro v
@@ -883,25 +972,40 @@ theorem star_ne_of_not_mem (t : Str) (h : '*' ∉ t) : (t != star) = true := by
   simp only [bne_iff_ne, ne_eq]
   intro e; subst e; exact h (by simp [star])
 
-/-- Shape of `aliasValues`: either the value itself, or its five parts under every bundle member. -/
-theorem aliasValues_cases (b : List Str) (v : Str) :
+theorem coversTD_false_of_starfree (td t : Str) (h : '*' ∉ td) : coversTD td t = false := by
+  simp [coversTD, hasPrefix_star_false td h]
+
+theorem beq_star_false_of_not_mem (t : Str) (h : '*' ∉ t) : (t == star) = false := by
+  rw [Bool.eq_false_iff]; intro e; rw [beq_iff_eq] at e; subst e; exact h (by simp [star])
+
+/-- Shape of `aliasValues` on a plain value: either the value itself, or its five parts under every
+    bundle member. -/
+theorem aliasValues_cases (b : List Str) (v : Str) (hv : plainTD v = true) :
     aliasValues b v = [v] ∨
     ∃ td a bb c d, splitOn '/' v = [td, a, bb, c, d] ∧
       aliasValues b v = b.map (fun t => join ['/'] [t, a, bb, c, d]) := by
-  unfold aliasValues
-  generalize splitOn '/' v = parts
-  match parts with
-  | [] => exact Or.inl rfl
-  | [_] => exact Or.inl rfl
-  | [_, _] => exact Or.inl rfl
-  | [_, _, _] => exact Or.inl rfl
-  | [_, _, _, _] => exact Or.inl rfl
-  | _ :: _ :: _ :: _ :: _ :: _ :: _ => exact Or.inl rfl
-  | [td, a, bb, c, d] =>
-    simp only
-    split
-    · exact Or.inr ⟨td, a, bb, c, d, rfl, rfl⟩
-    · exact Or.inl rfl
+  unfold aliasValues plainTD at *
+  generalize splitOn '/' v = parts at *
+  match parts, hv with
+  | [], _ => exact Or.inl rfl
+  | [_], _ => exact Or.inl rfl
+  | [_, _], _ => exact Or.inl rfl
+  | [_, _, _], _ => exact Or.inl rfl
+  | [_, _, _, _], _ => exact Or.inl rfl
+  | _ :: _ :: _ :: _ :: _ :: _ :: _, _ => exact Or.inl rfl
+  | [td, a, bb, c, d], hv =>
+    by_cases hstar : (td == star) = true
+    · exact Or.inl (by simp only [hstar, if_true])
+    · have hstar' : (td == star) = false := by simpa using hstar
+      have htd : '*' ∉ td := by simpa [hstar'] using hv
+      have hnc : b.any (coversTD td) = false := by
+        rw [Bool.eq_false_iff]; intro h
+        obtain ⟨t, _, ht⟩ := List.any_eq_true.1 h
+        rw [coversTD_false_of_starfree td t htd] at ht; cases ht
+      simp only [hstar', Bool.false_eq_true, if_false, hnc]
+      split
+      · exact Or.inr ⟨td, a, bb, c, d, rfl, rfl⟩
+      · exact Or.inl rfl
 
 theorem aliasValues_of_expanded (b : List Str) (hb : bundleOK b = true) (t a bb c d : Str) (ht : t ∈ b)
     (ha : '/' ∉ a) (hbb : '/' ∉ bb) (hc : '/' ∉ c) (hd : '/' ∉ d) :
@@ -909,11 +1013,11 @@ theorem aliasValues_of_expanded (b : List Str) (hb : bundleOK b = true) (t a bb 
   unfold aliasValues
   rw [splitOn_join5 t a bb c d (bundleOK_slash b hb t ht) ha hbb hc hd]
   have h1 : (b.contains t || t == clusterLocal) = true := by simp [ht]
-  simp only [star_ne_of_not_mem t (bundleOK_star b hb t ht), Bool.true_and, h1, if_true]
+  simp only [beq_star_false_of_not_mem t (bundleOK_star b hb t ht), Bool.false_eq_true, if_false, h1, if_true]
 
-theorem aliasValues_idem (b : List Str) (hb : bundleOK b = true) (v x : Str) (hx : x ∈ aliasValues b v) :
-    aliasValues b x = aliasValues b v := by
-  rcases aliasValues_cases b v with h | ⟨td, a, bb, c, d, hs, h⟩
+theorem aliasValues_idem (b : List Str) (hb : bundleOK b = true) (v x : Str) (hv : plainTD v = true)
+    (hx : x ∈ aliasValues b v) : aliasValues b x = aliasValues b v := by
+  rcases aliasValues_cases b v hv with h | ⟨td, a, bb, c, d, hs, h⟩
   · rw [h] at hx; simp at hx; subst hx; rfl
   · rw [h] at hx ⊢
     obtain ⟨t, ht, rfl⟩ := List.mem_map.1 hx
@@ -922,22 +1026,23 @@ theorem aliasValues_idem (b : List Str) (hb : bundleOK b = true) (v x : Str) (hx
     exact aliasValues_of_expanded b hb t a bb c d ht (hp a (by simp)) (hp bb (by simp)) (hp c (by simp))
       (hp d (by simp))
 
-theorem aliasValues_self_mem (b : List Str) (hb : bundleOK b = true) (v x : Str) (hx : x ∈ aliasValues b v) :
-    x ∈ aliasValues b x := by
-  rw [aliasValues_idem b hb v x hx]; exact hx
+theorem aliasValues_self_mem (b : List Str) (hb : bundleOK b = true) (v x : Str) (hv : plainTD v = true)
+    (hx : x ∈ aliasValues b v) : x ∈ aliasValues b x := by
+  rw [aliasValues_idem b hb v x hv hx]; exact hx
 
-theorem aliasValues_flat_idem (b : List Str) (hb : bundleOK b = true) (vs : List Str) (y : Str) :
+theorem aliasValues_flat_idem (b : List Str) (hb : bundleOK b = true) (vs : List Str)
+    (hvs : ∀ v ∈ vs, plainTD v = true) (y : Str) :
     y ∈ (vs.flatMap (aliasValues b)).flatMap (aliasValues b) ↔ y ∈ vs.flatMap (aliasValues b) := by
   simp only [List.mem_flatMap]
   constructor
   · rintro ⟨x, ⟨v, hv, hx⟩, hy⟩
-    exact ⟨v, hv, by rw [← aliasValues_idem b hb v x hx]; exact hy⟩
+    exact ⟨v, hv, by rw [← aliasValues_idem b hb v x (hvs v hv) hx]; exact hy⟩
   · rintro ⟨v, hv, hy⟩
-    exact ⟨y, ⟨v, hv, hy⟩, aliasValues_self_mem b hb v y hy⟩
+    exact ⟨y, ⟨v, hv, hy⟩, aliasValues_self_mem b hb v y (hvs v hv) hy⟩
 
 theorem aliasValues_plain (b : List Str) (hb : bundleOK b = true) (v x : Str) (hv : plainTD v = true)
     (hx : x ∈ aliasValues b v) : plainTD x = true := by
-  rcases aliasValues_cases b v with h | ⟨td, a, bb, c, d, hs, h⟩
+  rcases aliasValues_cases b v hv with h | ⟨td, a, bb, c, d, hs, h⟩
   · rw [h] at hx; simp at hx; subst hx; exact hv
   · rw [h] at hx
     obtain ⟨t, ht, rfl⟩ := List.mem_map.1 hx
@@ -994,12 +1099,14 @@ theorem expandMRule_congr (b : List Str) {x y : MRule} (h : x.equiv y) :
     · simp only [h2, if_false]
       exact h
 
-theorem expandMRule_idem (b : List Str) (hb : bundleOK b = true) (mr : MRule) :
+theorem expandMRule_idem (b : List Str) (hb : bundleOK b = true) (mr : MRule) (hp : mrulePlain mr = true) :
     (expandMRule b (expandMRule b mr)).equiv (expandMRule b mr) := by
+  unfold mrulePlain at hp
   unfold expandMRule
   by_cases h1 : mr.key = attrSrcPrincipal
-  · simp only [h1, if_true]
-    exact ⟨rfl, rfl, aliasValues_flat_idem b hb _, aliasValues_flat_idem b hb _⟩
+  · simp only [h1, if_true, List.all_eq_true, List.mem_append] at hp ⊢
+    exact ⟨rfl, rfl, aliasValues_flat_idem b hb _ (fun v hv => hp v (Or.inl hv)),
+      aliasValues_flat_idem b hb _ (fun v hv => hp v (Or.inr hv))⟩
   · simp only [h1, if_false]
     by_cases h2 : mr.key = attrSrcTrustDomain
     · simp only [h2, if_true, principal_ne_td.symm, if_false]
@@ -1036,16 +1143,16 @@ theorem iterate_migrate_equiv (b : List Str) (hb : bundleOK b = true) (k : Nat) 
     (hp : mrulePlain mr = true) :
     (iterate (migrateRule b) (k + 1) mr).equiv (expandMRule b mr) := by
   induction k generalizing mr with
-  | zero => exact migrateRule_equiv b mr hb hp
+  | zero => exact migrateRule_equiv b mr hb (mrulePlain_alias b mr hp)
   | succ k ih =>
-    have h1 := migrateRule_equiv b mr hb hp
+    have h1 := migrateRule_equiv b mr hb (mrulePlain_alias b mr hp)
     have hp1 : mrulePlain (migrateRule b mr) = true :=
       mrulePlain_equiv h1 (expandMRule_plain b hb mr hp)
     have h2 := ih (migrateRule b mr) hp1
     have h3 : (expandMRule b (migrateRule b mr)).equiv (expandMRule b (expandMRule b mr)) :=
       expandMRule_congr b h1
     show (iterate (migrateRule b) (k + 1) (migrateRule b mr)).equiv (expandMRule b mr)
-    exact MRule.equiv_trans h2 (MRule.equiv_trans h3 (expandMRule_idem b hb mr))
+    exact MRule.equiv_trans h2 (MRule.equiv_trans h3 (expandMRule_idem b hb mr hp))
 
 
 theorem insertFront_append (g : Gen) (k : Str) (vs nvs : List Str) (a base : List MRule) :
@@ -1232,32 +1339,32 @@ theorem mem_insertFront (g : Gen) (k : Str) (vs nvs : List Str) (l : List MRule)
   · exact Or.inr h
   · simpa using h
 
-theorem sourceRules_plain (pns : Str) (s : Source)
-    (hs : (s.principals ++ s.notPrincipals).all plainTD = true) :
-    ∀ mr ∈ sourceRules pns s [], mrulePlain mr = true := by
+theorem sourceRules_alias (b : List Str) (pns : Str) (s : Source)
+    (hs : (s.principals ++ s.notPrincipals).all (tdPartOK b) = true) :
+    ∀ mr ∈ sourceRules pns s [], mruleAlias b mr = true := by
   obtain ⟨k1, k2, k3, k4, k5, k6, k7, k8, k9, k10, k11⟩ := keys_distinct
   intro mr hmr
   unfold sourceRules at hmr
   rcases mem_insertFront _ _ _ _ _ _ hmr with h | hmr
-  · rw [h]; simpa [mrulePlain] using hs
+  · rw [h]; simpa [mruleAlias] using hs
   rcases mem_insertFront _ _ _ _ _ _ hmr with h | hmr
-  · rw [h]; simp [mrulePlain, k3]
+  · rw [h]; simp [mruleAlias, k3]
   rcases mem_insertFront _ _ _ _ _ _ hmr with h | hmr
-  · rw [h]; simp [mrulePlain, k1]
+  · rw [h]; simp [mruleAlias, k1]
   rcases mem_insertFront _ _ _ _ _ _ hmr with h | hmr
-  · rw [h]; simp [mrulePlain, k11]
+  · rw [h]; simp [mruleAlias, k11]
   rcases mem_insertFront _ _ _ _ _ _ hmr with h | hmr
-  · rw [h]; simp [mrulePlain, k5]
+  · rw [h]; simp [mruleAlias, k5]
   rcases mem_insertFront _ _ _ _ _ _ hmr with h | hmr
-  · rw [h]; simp [mrulePlain, k7]
+  · rw [h]; simp [mruleAlias, k7]
   rcases mem_insertFront _ _ _ _ _ _ hmr with h | hmr
-  · rw [h]; simp [mrulePlain, k9]
+  · rw [h]; simp [mruleAlias, k9]
   · simp at hmr
 
 /-- **`trustdomain_alias_correct` at rule level.** After `MigrateTrustDomain` the model of a rule
     matches exactly the requests the rule matches under the statement's reading of aliases. -/
 theorem migration_sem (o : BuildOpts) (req : Request) (pns : Str) (r : Rule) (m : Model)
-    (hb : bundleOK o.bundle = true) (hp : rulePlain r = true) (hm : newModel pns r = some m) :
+    (hb : bundleOK o.bundle = true) (hp : rulePlain o.bundle r = true) (hm : newModel pns r = some m) :
     modelSem req (migratedModel o pns r m) = ruleMatches pns (expandRule o.bundle r) req := by
   unfold newModel at hm
   cases hbase : baseRules pns r.whens [] [] with
@@ -1268,18 +1375,22 @@ theorem migration_sem (o : BuildOpts) (req : Request) (pns : Str) (r : Rule) (m 
     subst hm
     simp only [rulePlain, Bool.and_eq_true, List.all_eq_true] at hp
     -- invariants of the base rules
-    have hinv := baseRules_inv (fun mr => expandMRule o.bundle mr = mr) (fun mr => mrulePlain mr = true)
+    have hinv := baseRules_inv (fun mr => expandMRule o.bundle mr = mr)
+      (fun mr => (r.froms.length ≤ 1 → mruleAlias o.bundle mr = true) ∧
+                 (¬ r.froms.length ≤ 1 → mrulePlain mr = true))
       pns r.whens [] [] bperm bprin (by simp) (by simp) (by
         intro c hc g hg
         refine ⟨fun hperm => expandMRule_perm o.bundle pns c.key c.values c.notValues g hg hperm, fun _ => ?_⟩
         have := hp.2 c hc
         simp only [Bool.or_eq_true, bne_iff_ne, ne_eq, List.all_eq_true] at this
-        unfold mrulePlain
+        unfold mrulePlain mruleAlias
         by_cases hk : c.key = attrSrcPrincipal
         · simp only [hk, if_true, List.all_eq_true]
           rcases this with h | h
           · exact absurd hk h
-          · exact h
+          · constructor
+            · intro hl; simpa [hl] using h
+            · intro hl; simpa [hl] using h
         · simp [hk]) hbase
     have hsem := baseRules_sem_expand req o.bundle pns r.whens [] [] bperm bprin hbase
     simp only [List.map_nil, mrulesHold, List.all_nil, Bool.true_and] at hsem
@@ -1288,12 +1399,16 @@ theorem migration_sem (o : BuildOpts) (req : Request) (pns : Str) (r : Rule) (m 
     rw [hpermid] at hsem
     have hnb : nBasePrincipals pns r = bprin.length := by simp [nBasePrincipals, hbase]
     -- the migrated base rules
-    have hbaseN : ∀ k, mrulesHold req (bprin.map (iterate (migrateRule o.bundle) (k + 1))) =
+    have hbaseN : ∀ k, (k = 0 → r.froms.length ≤ 1) → (k ≠ 0 → ¬ r.froms.length ≤ 1) →
+        mrulesHold req (bprin.map (iterate (migrateRule o.bundle) (k + 1))) =
         mrulesHold req (bprin.map (expandMRule o.bundle)) := by
-      intro k
+      intro k hk0 hk1
       apply mrulesHold_map_congr
       intro mr hmr
-      exact fieldSem_equiv req (iterate_migrate_equiv o.bundle hb k mr (hinv.2 mr hmr))
+      by_cases hz : k = 0
+      · subst hz
+        exact fieldSem_equiv req (migrateRule_equiv o.bundle mr hb ((hinv.2 mr hmr).1 (hk0 rfl)))
+      · exact fieldSem_equiv req (iterate_migrate_equiv o.bundle hb k mr ((hinv.2 mr hmr).2 (hk1 hz)))
     unfold modelSem migratedModel migrateTrustDomain ruleMatches expandRule
     simp only [hnb, List.isEmpty_map, List.any_map, List.length_map]
     -- permissions
@@ -1311,7 +1426,7 @@ theorem migration_sem (o : BuildOpts) (req : Request) (pns : Str) (r : Rule) (m 
     · simp only [hf, List.isEmpty_nil, if_true, List.any_cons, List.any_nil, Bool.or_false,
         List.length_cons, List.length_nil, Nat.zero_add, Nat.sub_self, List.take_zero, List.map_nil,
         List.nil_append, List.drop_zero, Bool.true_or, Bool.true_and, Function.comp_def]
-      rw [hbaseN 0, ← hsem]
+      rw [hbaseN 0 (fun _ => by simp [hf]) (fun h => absurd rfl h), ← hsem]
       simp only [mrulesHold]
       generalize (r.tos.isEmpty || r.tos.any (opMatches · req)) = a
       cases a <;> cases bperm.all (fieldSem req) <;>
@@ -1332,13 +1447,13 @@ theorem migration_sem (o : BuildOpts) (req : Request) (pns : Str) (r : Rule) (m 
         intro s hs
         rw [sourceRules_append pns s bprin]
         simp only [List.length_append, Nat.add_sub_cancel, List.take_left', List.drop_left',
-          mrulesHold_append, hbaseN k]
+          mrulesHold_append, hbaseN k (fun h => by omega) (fun h => by omega)]
         congr 1
         rw [← mrulesHold_sourceRules_expand]
         apply mrulesHold_map_congr
         intro mr hmr
         exact fieldSem_equiv req (migrateRule_equiv o.bundle mr hb
-          (sourceRules_plain pns s (List.all_eq_true.2 (hp.1 s hs)) mr hmr))
+          (sourceRules_alias o.bundle pns s (List.all_eq_true.2 (hp.1 s hs)) mr hmr))
       rw [any_congr_mem r.froms _ _ hsrc, any_map_and, ← hsem]
       simp only [mrulesHold]
       generalize (r.tos.isEmpty || r.tos.any (opMatches · req)) = a
@@ -1356,7 +1471,7 @@ theorem migrationSem_of_noop (o : BuildOpts) (req : Request) (pns : Str) (r : Ru
   exact newModel_sem req pns r m hm
 
 theorem migrationSem_of_plain (o : BuildOpts) (req : Request) (pns : Str) (r : Rule)
-    (hb : bundleOK o.bundle = true) (hp : rulePlain r = true) : MigrationSem o req pns r :=
+    (hb : bundleOK o.bundle = true) (hp : rulePlain o.bundle r = true) : MigrationSem o req pns r :=
   fun m hm => migration_sem o req pns r m hb hp hm
 
 /-! ## 7. Discharging the hypotheses: decidable scope predicates -/
@@ -2159,6 +2274,53 @@ theorem custom_dryrun_witness_unfixed :
       [dryRunCustomPolicy] dryRunCustomReq = true ∧
     evalGs (compileAll exWl exOpts { providers := ["default".toList], multi := false }
       [dryRunCustomPolicy]) dryRunCustomReq = true := by decide
+
+/-! ### Trust-domain aliases with a wildcard inside the trust-domain part (witnesses) -/
+
+def aliasOpts : BuildOpts := { bundle := ["td1".toList, "cluster.local".toList], forTCP := false, useAuth := true }
+
+def aliasPolicy (v : String) : Policy :=
+  { ns := "foo".toList, name := "p".toList, action := .allow, rules := [ { froms := [ { principals := [v.toList] } ] } ] }
+
+def aliasReq (td : String) : Request :=
+  { srcIP := 1, remoteIP := 1, dstIP := 2, dstPort := 80, sni := [],
+    peer := some ⟨td.toList, "foo".toList, "a".toList⟩,
+    http := some { host := "example.com".toList, method := "GET".toList, path := "/".toList, headers := [] },
+    metadata := [] }
+
+/-- `*suffix` trust-domain part (validator-accepted, generated in valid mode): with the bundle
+    [td1, cluster.local] the value `*ocal/ns/foo/sa/a` covers cluster.local itself and is extended to
+    td1; compiled filters and statement agree (allow td1 and cluster.local, deny another trust
+    domain), and the hypotheses of `compile_all_exact` hold. -/
+theorem alias_suffix_td_witness :
+    (["td1", "cluster.local", "other"].map fun td =>
+      (evalGs (compileAll exWl aliasOpts { providers := [], multi := false } [aliasPolicy "*ocal/ns/foo/sa/a"]) (aliasReq td),
+       specDecisionOn exWl aliasOpts.bundle { providers := [], multi := false } false [aliasPolicy "*ocal/ns/foo/sa/a"] (aliasReq td)))
+      = [(true, true), (true, true), (false, false)] ∧
+    hypsOnB aliasOpts [aliasPolicy "*ocal/ns/foo/sa/a"] (aliasReq "td1") = true := by decide
+
+/-- Finding 5 (`tdPartOK` fails): a `prefix*` trust-domain part.  `clu*/ns/foo/sa/a` is an exact-match
+    value (a `*` in the middle of a value is an ordinary character), which no identity equals;
+    `MigrateTrustDomain` takes `clu*` as a pattern over the mesh's trust domains and rewrites the
+    value to `cluster.local/ns/foo/sa/a`, so the ALLOW policy admits that identity.  Happens with the
+    default bundle [cluster.local], no alias configured.  (Replayed on the real code: corpus
+    `requests.alias-wildcard.ops`.) -/
+theorem alias_prefix_td_witness :
+    evalGs (compileAll exWl exOpts { providers := [], multi := false } [aliasPolicy "clu*/ns/foo/sa/a"])
+      (aliasReq "cluster.local") = true ∧
+    specDecisionOn exWl exOpts.bundle { providers := [], multi := false } false [aliasPolicy "clu*/ns/foo/sa/a"]
+      (aliasReq "cluster.local") = false ∧
+    hypsOnB exOpts [aliasPolicy "clu*/ns/foo/sa/a"] (aliasReq "cluster.local") = false := by decide
+
+/-- Where the statement's reading of aliases ENDS (and the code agrees): only five-part values are
+    aliased.  The prefix value `cluster.local/ns/foo/*` is taken literally by statement and code, so
+    with the bundle [td1, cluster.local] it does not cover `td1/ns/foo/sa/a` (an observation recorded
+    in notes/C08.md: MeshConfig documents aliased identities as "treated the same"). -/
+theorem alias_prefix_value_literal :
+    (["td1", "cluster.local"].map fun td =>
+      (evalGs (compileAll exWl aliasOpts { providers := [], multi := false } [aliasPolicy "cluster.local/ns/foo/*"]) (aliasReq td),
+       specDecisionOn exWl aliasOpts.bundle { providers := [], multi := false } false [aliasPolicy "cluster.local/ns/foo/*"] (aliasReq td)))
+      = [(false, false), (true, true)] := by decide
 
 /-- All hypotheses incl. the CUSTOM part, as one computable check. -/
 theorem customEntriesDistinct_of_B (o : BuildOpts) (ps : List Policy) (h : customEntriesDistinctB o ps = true) :
